@@ -5,8 +5,8 @@ CONSTANTS
   SubFiles = {"b"}
   MaxDepth = 8
   FileSeq <- Seq3
-  MaxStmts = 3
-  GenKinds = {"use", "forward", "import", "loadcss"}
+  MaxStmts = 2
+  GenKinds = {"use", "forward"}
   GenSpellings = {"plain", "dot", "dd", "ext"}
   DevChoices <- DevIdeal
   MaxFaultAt = 0
